@@ -232,6 +232,14 @@ fn place_json<'tcx>(cx: &mut Cx<'tcx>, body: &Body<'tcx>, p: &Place<'tcx>) -> St
                             .unwrap_or_else(|| format!("{}", f.as_usize()));
                         (format!("{{closure}}#{}", f.as_usize()), nm)
                     }
+                    ty::Coroutine(..) => {
+                        let vi = pty.variant_index.map(|v| v.as_usize()).unwrap_or(usize::MAX);
+                        if vi == usize::MAX {
+                            ("{coroutine}".to_string(), format!("up{}", f.as_usize()))
+                        } else {
+                            ("{coroutine}".to_string(), format!("s{}_{}", vi, f.as_usize()))
+                        }
+                    }
                     _ => ("?".to_string(), format!("{}", f.as_usize())),
                 };
                 jstr(&format!("f:{}:{}", name, owner))
